@@ -260,7 +260,7 @@ def spaces(tier, seed):
                         describe='every table of 3..%d cycles over 5 flank/period kinds x 2 monotonicities x 3 threshold sets x 3 reductions x 2 centrings' % (4 if q else 5)),
            ProductSpace('layouts-mono.9-%d' % (5 if q else 6), [KINDS[:5]] * (5 if q else 6), eval_layout,
                         describe='every table of %d cycles over the 5 flank/period kinds (monotonicity .9)' % (5 if q else 6))]
-    al = ['a', 'd', 'n'] if q else ['a', 'd', 'n', 'b']
+    al = ['a', 'd', 'n']
     L = 7 if q else 8
     out.append(ProductSpace('W(%d,%d)-pipeline' % (len(al), L), S.word_dims(al, L) + [['peak', 'trough']], eval_pipeline,
                             bounds={'letters': al}, describe='pipeline tables of all %d-letter words over %s x 2 centrings x 2 threshold '
